@@ -55,6 +55,13 @@ def _cases(tier, seed):
                 ss = dict(s)
                 ss['skind'] = sk
                 cs.append({'scen': 'op_preserve', 's': ss})
+    # operands of different dtypes (float64 with complex128 / float32, both orders): refused or promoted, the operands keep their dtype and value
+    for name in ('matvec', 'matmat', 'add', 'sub', 'mul', 'dot', 'kron', 'bilinear'):
+        if name not in OPS:
+            continue
+        nops = len(OPS[name][0])
+        for dts in (['float64', 'complex128', 'float64'], ['complex128', 'float64', 'complex128'], ['float64', 'float32', 'float64']):
+            cs.append({'scen': 'op_preserve', 's': {'N': [2, 3], 'R': [1, 2, 1], 'R2': [1, 2, 1], 'op': name, 'skind': 'float', 'dtypes': dts[:max(nops, 1)], 'may_raise': True}})
     # complex operands and complex scalars
     for st in ({'N': [2, 3], 'R': [1, 2, 1]}, {'N': [2, 2], 'M': [1, 2], 'R': [1, 2, 1]}):
         for name in ('mul_scalar', 'rmul_scalar', 'add_scalar', 'sub_scalar', 'neg', 'conj', 'clone', 'add', 'mul', 'getitem_slices', 't', 'to_same'):
